@@ -231,6 +231,63 @@ Definition L1_bad (fuel : nat) (pt : ptype) (ss : list selection) : list N :=
       if String.eqb (fe_key a) (fe_key b) && negb (compat_b fuel false a b)
       then [fe_id a; fe_id b] else []) fs) fs.
 
+(* ---- L1 as a three-valued executable oracle: None = out of fuel (never a verdict).
+   Proofs/ValidateL1.v: [L1o fuel = Some b] implies (b = true <-> L1_accepts). ---- *)
+Fixpoint all_o {A} (f : A -> option bool) (l : list A) : option bool :=
+  match l with
+  | [] => Some true
+  | x :: r =>
+    match f x, all_o f r with
+    | Some false, _ => Some false
+    | _, Some false => Some false
+    | None, _ => None
+    | _, None => None
+    | Some true, Some true => Some true
+    end
+  end.
+
+(* fragments reachable from a list of names: iterate until nothing new appears *)
+Fixpoint reach_o (n : nat) (seen : list name) : option (list name) :=
+  match n with
+  | O => None
+  | Datatypes.S n' =>
+    let nxt := flat_map frag_spreads seen in
+    if forallb (fun x => nmem x seen) nxt then Some seen
+    else reach_o n' (dedup (seen ++ nxt) [])
+  end.
+
+Definition expanded_o (s : ptype * list selection) : option (list fentry) :=
+  match reach_o (Datatypes.S (Datatypes.S (List.length (d_frags D)))) (dspreads (snd s)) with
+  | Some gs => Some (dfields (fst s) (snd s) ++ flat_map frag_fields gs)
+  | None => None
+  end.
+
+Definition base2_ok (ex : bool) (a b : fentry) : bool := base_ok ex a b && base_ok ex b a.
+
+Fixpoint compat_o (fuel : nat) (fl : bool) (a b : fentry) : option bool :=
+  match fuel with
+  | O => None
+  | Datatypes.S f =>
+    let ex := fl || excl a b in
+    if negb (base2_ok ex a b) then Some false
+    else if has_sub a && has_sub b then
+      match expanded_o (sub_pt a, fe_sub a), expanded_o (sub_pt b, fe_sub b) with
+      | Some la, Some lb =>
+        all_o (fun a' => all_o (fun b' => if String.eqb (fe_key a') (fe_key b')
+                                          then compat_o f ex a' b' else Some true) lb) la
+      | _, _ => None
+      end
+    else Some true
+  end.
+
+Definition L1_set_o (fuel : nat) (s : ptype * list selection) : option bool :=
+  match expanded_o s with
+  | Some l =>
+    all_o (fun a => all_o (fun b => if String.eqb (fe_key a) (fe_key b)
+                                    then compat_o fuel false a b else Some true) l) l
+  | None => None
+  end.
+
 (* ================= the selection sets the rule is called on ================= *)
 
 Definition comp (p : ptype) : ptype :=
@@ -284,6 +341,15 @@ Definition L1_offending (fuel : nat) : list N :=
 
 Definition L1b (fuel : nat) : bool :=
   match L1_offending fuel with [] => true | _ => false end.
+
+(* every selection set the rule visits and every fragment body (parent type as computed by
+   getReferencedFieldsAndFragmentNames) *)
+Definition frag_bodies : list (ptype * list selection) :=
+  flat_map (fun f => match frag (fr_name f) with
+                     | Some fr => [(resolve (fr_cond fr), fr_sel fr)]
+                     | None => []
+                     end) (d_frags D).
+Definition L1o (fuel : nat) : option bool := all_o (L1_set_o fuel) (all_sets ++ frag_bodies).
 
 (* ================= acyclicity of the spread graph (through fields too) ================= *)
 
